@@ -600,7 +600,7 @@ fn eval_batch_exec(args: &[Sexp]) -> Option<String> {
     }
     let heavy = matches!(&base, Ok(Answer::Rows(rows)) if rows.len() > HEAVY_ROWS);
     let scheds = if heavy { &scheds[..scheds.len().min(HEAVY_SCHEDULES)] } else { &scheds[..] };
-    for s in scheds {
+    for (sched_index, s) in scheds.iter().enumerate() {
         BATCHED_RUNS.with(|c| c.set(c.get() + 1));
         let got = outcome(|| execute(Arc::new(BatchingAdapter::new(table.clone(), s.clone())), q.clone(), &r.args));
         let same = match (&base, &got) {
@@ -614,6 +614,9 @@ fn eval_batch_exec(args: &[Sexp]) -> Option<String> {
         // the crate's own middleware in the stack: the tracing tap over the same read-ahead adapter
         // must not crash or change rows either (seeded change C02-2: a `RefMut` kept alive across
         // the inner `resolve_neighbors` call panics as soon as the inner adapter pulls eagerly)
+        if sched_index >= 64 {
+            continue;
+        }
         let traced = outcome(|| {
             use trustfall_core::interpreter::trace::{AdapterTap, Trace, tap_results};
             let tracer = Rc::new(RefCell::new(Trace::new(q.ir_query.clone(), r.args.clone())));
@@ -940,15 +943,15 @@ impl Prop for C02 {
         "C02"
     }
     fn rule(&self) -> &'static str {
-        "(batch-exec ...): the worlds of C01 (same generator, same seed; quick 40 schemas, thorough 120: schemas x 2 datasets x ~10 accepted type-directed queries with plain/optional/fold/nested-fold/recurse edges, coercions, filters with variable/tag/imported-tag/fold-count operands, count outputs and filters); every (dataset, query) is run unbatched over the lazy table adapter and then under every schedule of the request: the 24 fixed ones (wrapper default = every resolver call pre-fetches one element; the [0,0,MAX] schedule of repro_issue_205; chunks of 4; chunks 1,2,3,4,...; pre-fetch EVERYTHING before the first output on the output side / the input side / both; lazy-then-everything; and the #205 shape 'all calls minimal, the i-th call pre-fetches everything' for i < 12) plus seeded random ones (0..24 per-call entries, each re-batching input, output or both with a random u64 digit sequence, 0, MAX, or explicit chunk sizes 0..4 then everything; exhausted schedules continue with 0 or cyclically) - quick 24+24, thorough 24+1976 per query. Under every schedule the run is repeated with the crate's tracing middleware in the stack (AdapterTap over the same batching adapter, rows through tap_results) and must give the same rows. The answer is the unbatched rows when all schedules agree, (batch-mismatch <schedule> ...) otherwise; the Lean side answers the rows of the list-level interpreter, which does not look at the schedule. (batch-numbers ...): the same for the repo's own valid numbers test queries over the repo's NumbersAdapter. (plan ...)/(plan-numbers ...): the ownership plan (bracket sites, closures) derived in Rust from the real IRQuery must equal the Lean planOf of the rendered IR, and the real engine's adapter-call log over the lazy adapter must conform to it (calls before the first pull = root pipeline; every later burst of calls = body of one fold closure). (carrier-trace ...): for queries with folds the real engine is run under a batching schedule with every resolver call bracketed in a log; the nested log must parse by the grammar the carrier machine assigns (pipeline = its calls, each with a window of activations of earlier closures; activation = the body's pipeline, then a window over its closures) and the resulting abstract schedule, carried in the request, must be served by the Lean machine activation for activation and read to its end (nt: at least one activation / at least one re-entrant window, i.e. a closure run during a construction-time call as in #205). (chunk ...): batch sizes of the chunk iterator vs the Lean chunk. A case is non-trivial (nt:) when the query has a fold (a pull-time closure exists) and the unbatched run returned rows, or for plan requests when at least one closure burst was observed. Oracle: any (batch-mismatch ...) answer - rows differ or a panic appears/disappears under some schedule - and any (carrier-panic ...) answer: a run, batched or not, died with expect(\"query was not returned\")."
+        "(batch-exec ...): the worlds of C01 (same generator, same seed; quick 40 schemas, thorough 120: schemas x 2 datasets x ~10 accepted type-directed queries with plain/optional/fold/nested-fold/recurse edges, coercions, filters with variable/tag/imported-tag/fold-count operands, count outputs and filters); every (dataset, query) is run unbatched over the lazy table adapter and then under every schedule of the request: the 24 fixed ones (wrapper default = every resolver call pre-fetches one element; the [0,0,MAX] schedule of repro_issue_205; chunks of 4; chunks 1,2,3,4,...; pre-fetch EVERYTHING before the first output on the output side / the input side / both; lazy-then-everything; and the #205 shape 'all calls minimal, the i-th call pre-fetches everything' for i < 12) plus seeded random ones (0..24 per-call entries, each re-batching input, output or both with a random u64 digit sequence, 0, MAX, or explicit chunk sizes 0..4 then everything; exhausted schedules continue with 0 or cyclically) - quick 24+24, thorough 24+476 per query. Under the first 64 schedules of a request the run is repeated with the crate's tracing middleware in the stack (AdapterTap over the same batching adapter, rows through tap_results) and must give the same rows. The answer is the unbatched rows when all schedules agree, (batch-mismatch <schedule> ...) otherwise; the Lean side answers the rows of the list-level interpreter, which does not look at the schedule. (batch-numbers ...): the same for the repo's own valid numbers test queries over the repo's NumbersAdapter. (plan ...)/(plan-numbers ...): the ownership plan (bracket sites, closures) derived in Rust from the real IRQuery must equal the Lean planOf of the rendered IR, and the real engine's adapter-call log over the lazy adapter must conform to it (calls before the first pull = root pipeline; every later burst of calls = body of one fold closure). (carrier-trace ...): for queries with folds the real engine is run under a batching schedule with every resolver call bracketed in a log; the nested log must parse by the grammar the carrier machine assigns (pipeline = its calls, each with a window of activations of earlier closures; activation = the body's pipeline, then a window over its closures) and the resulting abstract schedule, carried in the request, must be served by the Lean machine activation for activation and read to its end (nt: at least one activation / at least one re-entrant window, i.e. a closure run during a construction-time call as in #205). (chunk ...): batch sizes of the chunk iterator vs the Lean chunk. A case is non-trivial (nt:) when the query has a fold (a pull-time closure exists) and the unbatched run returned rows, or for plan requests when at least one closure burst was observed. Oracle: any (batch-mismatch ...) answer - rows differ or a panic appears/disappears under some schedule - and any (carrier-panic ...) answer: a run, batched or not, died with expect(\"query was not returned\")."
     }
     fn generate(&self, tier: Tier, rng: &mut Rng) -> Vec<Case> {
-        let n_rand = if tier == Tier::Quick { 24 } else { 1976 };
+        let n_rand = if tier == Tier::Quick { 24 } else { 476 };
         self.schedules_per_query.set(std_schedules().len() + n_rand);
         let mut out = vec![];
         // generated worlds FIRST: the same seed gives the worlds of C01
         // quick: exactly the worlds of C01's quick tier; thorough: 120 schemas (x 2 datasets x ~10 queries)
-        // so that 2000 schedules per (dataset, query) stay within minutes
+        // so that 500 schedules per (dataset, query) stay within ~20 minutes (debug build, one thread)
         let mut knobs = WorldKnobs::for_tier(tier);
         if tier == Tier::Thorough {
             knobs.n_schemas = 120;
